@@ -59,3 +59,21 @@ plan("C04", "exploration",
      assumptions=["reference CRC: Rocksoft model, bit-serial, self-tested against published check values at start-up",
                   "seed/xor conventions: crc16_t10dif and crc32_iscsi raw; all others invert seed and result (crc64_base.c documents it)",
                   "Adler seeds are canonical (both halves < 65521) as RFC 1950 defines; non-canonical seeds are run but not judged"])
+
+plan("C03", "exploration",
+     "Systematic: every one of the 40 direct gf_Nvect_dot_prod_* kernels x len = documented minimum .. +140 (thorough +300) x k 1..5 x {end-flush, start-flush, misaligned}. "
+     "Generated: kernel / ec_encode_data_{base,sse,avx,avx2,avx512,avx2_gfni,avx512_gfni} / dispatcher under 12 simulated cpu levels (tables from the matching builder), "
+     "k 1..255, rows 1..14, len 0..70000 (boundary-biased), per-buffer alignment 0..63 and flush placement, structured and uniform coefficients. "
+     "Non-trivial: k>=2, a coefficient outside {0,1}, len >= kernel minimum.",
+     lambda tier: [S("C03", 30000 if tier == "quick" else 1200000)],
+     assumptions=["reference: carry-less multiply mod 0x11D", "direct per-ISA kernels are never called below their documented minimum length or with k == 0",
+                  "dispatched gf_vect_dot_prod is paired with ec_init_tables_base (32-byte tables), ec_encode_data with the dispatched ec_init_tables"])
+
+plan("C13", "exploration",
+     "Systematic: every one of the 42 direct gf_Nvect_mad_* kernels x len = documented minimum .. +140 (thorough +300) x placements. Generated: mad kernels (k 1..64/255, vec_i, "
+     "len to 70000, alignment), ec_encode_data_update_{base,sse,avx,avx2,avx512,avx2_gfni,avx512_gfni} and the dispatcher under 12 cpu levels driven as a state machine "
+     "(generated permutation of update order, cancelling double applications, model compared after every step), dispatched gf_vect_mad, gf_vect_mul_{base,sse,avx}+dispatcher. "
+     "Non-trivial: k>=2, rows>=2, non-identity order.",
+     lambda tier: [S("C13", 30000 if tier == "quick" else 1000000)],
+     assumptions=["reference: carry-less multiply mod 0x11D", "direct kernels are not called below their documented minimum length",
+                  "gf_vect_mul: len multiple of 32 and 32-byte aligned buffers as documented"])
